@@ -5,64 +5,13 @@ import vlib, parts_subject, parts_kernel
 PID = 'C10'
 
 
-def lin_part(rep, n, seeds, park):
-    d = vlib.scratch('lin-')
-    label = 'subject-lin-park' if park else 'subject-lin'
-    try:
-        total = nontriv = 0
-        for s in seeds:
-            out = os.path.join(d, 'h-%d.ndjson' % s)
-            scen = os.path.join(d, 's-%d.ndjson' % s)
-            vlib.run_harness(['drive-subject', '-n', str(n), '-seed', str(s), '-out', out, '-scenarios', scen] + (['-park'] if park else []))
-            v = vlib.validate_traces('SubjectLin', 'SubjectLin_C10.cfg', out, dfs=True, locate=False)
-            rep.add_states(v['result'])
-            scenarios = {}
-            for line in open(scen):
-                o = json.loads(line)
-                scenarios[o['t']] = o
-            for t in v['order']:
-                total += 1
-                lines = v['traces'][t]
-                # non-trivial: at least two threads had calls in flight at the same time
-                act = set()
-                nt = False
-                for l in lines:
-                    e = json.loads(l)
-                    if e['e'] == 'inv':
-                        if act - {e['p']}:
-                            nt = True
-                        act.add(e['p'])
-                    elif e['e'] == 'ret':
-                        act.discard(e['p'])
-                nontriv += 1 if nt else 0
-            if v['order']:
-                t0 = v['order'][0]
-                rep.sample(dict(driver=label, seed=s, history=[json.loads(x) for x in v['traces'][t0][:14]]), maxn=3)
-            for t in v['rejected']:
-                os.makedirs(os.path.join(vlib.REPLAYS, PID), exist_ok=True)
-                rp = os.path.join(vlib.REPLAYS, PID, '%s-seed%d-history%d.ndjson' % (label, s, t))
-                with open(rp, 'w') as fh:
-                    fh.write(''.join(v['traces'][t]))
-                sc = scenarios.get(t, {})
-                hang = json.loads(v['traces'][t][-1]).get('e') == 'hang'
-                desc = ('history of the real %s subject is not linearizable w.r.t. SubjectSeq (no placement of the linearization points explains the '
-                        'subscribers\' observations); scenario %s' % (sc.get('scenario', {}).get('Kind'), json.dumps(sc)[:400]))
-                rep.add_violation('%s.%s' % (label, 'hang' if hang else 'history'), desc, replay_path=rp, components=[sc.get('scenario', {}).get('Kind')])
-        rep.cov['traces_validated_against_impl'] += total
-        rep.cov['evaluations'] += total
-        rep.cov['distinct_nontrivial'] += nontriv
-        rep.parts[label] = dict(histories=total, concurrent=nontriv, seeds=list(seeds))
-    finally:
-        shutil.rmtree(d, ignore_errors=True)
-
-
 def main(argv):
     rep = vlib.Report(PID, 'model_checking', argv)
     vlib.build_harness()
     th = rep.tier == 'thorough'
     parts_subject.run_seq(rep, PID, th)
-    lin_part(rep, 1000 if th else 400, [rep.seed * 100 + i for i in range(6 if th else 1)], park=False)
-    lin_part(rep, 100 if th else 25, [rep.seed * 100 + 50 + i for i in range(3 if th else 1)], park=True)
+    parts_subject.lin_part(rep, PID, 1000 if th else 400, [rep.seed * 100 + i for i in range(6 if th else 1)], park=False)
+    parts_subject.lin_part(rep, PID, 100 if th else 25, [rep.seed * 100 + 50 + i for i in range(3 if th else 1)], park=True)
     rep.cov['rule'] = ('(a) TLC enumerates EVERY operation sequence up to 4-6 operations over {Next 1, Next 2, Error, Complete, Subscribe i, self-unsubscribing Subscribe i, '
                        'Unsubscribe i} for publish / behavior / replay(0,1,2,unlimited) / async / unicast(0,1,2,unlimited) against SubjectSeq.tla and the real subject is driven through '
                        'each (deliveries per subscriber and getters compared after each operation); (b) concurrent histories of 2-4 threads (free-running with yield hooks, and '
